@@ -279,6 +279,50 @@ func sxgInst(c *core.Ctx, label string, kind sxgKind) *inst {
 	return sxgInstOf(c, label, l, kind)
 }
 
+// sxgDatelessInst: a Signer whose Date and Expires were left at their zero value
+// (a legal, if odd, input: the signed window is then the year 1). The library
+// has no clock seam, so the only way to see whether an output secretly depends
+// on the wall clock is to let the wall clock move: the second call of an
+// instance waits (once, at most one real second) until time.Now() shows
+// another second than at the first call. For code that never asks the clock
+// this changes nothing; it is the one place where a run consults real time.
+func sxgDatelessInst(c *core.Ctx, label string) *inst {
+	l := gen.DrawSXG(c, label+".sxg", 1)
+	lc := *l
+	signer := lc.Signer()
+	signer.Date, signer.Expires = time.Time{}, time.Time{}
+	if c.Bool(label + ".onlyDateUnset") {
+		signer.Expires = time.Unix(lc.Expires, 0)
+	}
+	in := &inst{name: label + ":AddSignatureHeader+DumpSignedMessage(Signer without Date)", seqOnly: true}
+	firstSecond, waited := int64(0), false
+	in.run = func(w io.Writer) error {
+		if firstSecond == 0 {
+			firstSecond = time.Now().Unix()
+		} else if !waited {
+			for time.Now().Unix() == firstSecond {
+				time.Sleep(20 * time.Millisecond)
+			}
+			waited = true
+		}
+		e2 := lc.Unsigned()
+		if err := e2.MiEncodePayload(lc.RS); err != nil {
+			return err
+		}
+		if err := e2.AddSignatureHeader(signer); err != nil {
+			return err
+		}
+		var b bytes.Buffer
+		b.WriteString(e2.SignatureHeaderValue)
+		if err := e2.DumpSignedMessage(&b, signer); err != nil {
+			return err
+		}
+		_, werr := w.Write(b.Bytes())
+		return werr
+	}
+	return in
+}
+
 func sxgInstOf(c *core.Ctx, label string, l *gen.LSXG, kind sxgKind) *inst {
 	names := []string{"Exchange.Write", "Exchange.DumpExchangeHeaders", "Exchange.DumpSignedMessage", "Exchange.AddSignatureHeader"}
 	in := &inst{name: label + ":" + names[kind], writer: kind != sxgAddSignature}
@@ -651,6 +695,39 @@ func ibInstOf(c *core.Ctx, label string, kind ibKind, stacks [][]attrKV, sigs []
 	return in
 }
 
+// ibForkInst: a block with several signatures is kept by the caller (a struct
+// copy: same signature stack) while other copies of it are counter-signed, one
+// per call; the kept copy must serialize to the same bytes every time.
+func ibForkInst(c *core.Ctx, label string) *inst {
+	base := &integrityblock.IntegrityBlock{Magic: integrityblock.IntegrityBlockMagic, Version: integrityblock.VersionB1}
+	hash := c.BytesN(label+".hash", 64)
+	nsig := c.Int(label+".nsig", 1, 8)
+	for i := 0; i < nsig; i++ { // built the way the library builds it: one signing after the other
+		pub, priv := fixtures.Ed25519Key(i % 8)
+		ibs := &integrityblock.IntegrityBlockSigner{WebBundleHash: hash, IntegrityBlock: base, SigningStrategy: integrityblock.NewParsedEd25519KeySigningStrategy(priv)}
+		if err := ibs.SignAndAddNewSignature(pub, integrityblock.SignatureAttributesMap{integrityblock.Ed25519publicKeyAttributeName: []byte(pub)}); err != nil {
+			panic(err)
+		}
+	}
+	kept := *base
+	cpub, cpriv := fixtures.Ed25519Key(c.Int(label+".counterKey", 8, 15))
+	in := &inst{name: label + ":IntegrityBlock.CborBytes(kept copy while forks are counter-signed)"}
+	in.run = func(w io.Writer) error {
+		fork := *base
+		ibs := &integrityblock.IntegrityBlockSigner{WebBundleHash: hash, IntegrityBlock: &fork, SigningStrategy: integrityblock.NewParsedEd25519KeySigningStrategy(cpriv)}
+		if err := ibs.SignAndAddNewSignature(cpub, integrityblock.SignatureAttributesMap{integrityblock.Ed25519publicKeyAttributeName: []byte(cpub)}); err != nil {
+			return err
+		}
+		b, err := kept.CborBytes()
+		return writeAll(w, b, err)
+	}
+	in.sharedHash = func() uint64 {
+		b, _ := kept.CborBytes()
+		return fnvOf(b)
+	}
+	return in
+}
+
 // ---- structured headers ------------------------------------------------------------------------
 
 type paramKV struct {
@@ -908,11 +985,18 @@ var instMakers = []func(c *core.Ctx) *inst{
 	func(c *core.Ctx) *inst { return sxgInst(c, "sxgh", sxgDumpHeaders) },
 	func(c *core.Ctx) *inst { return sxgInst(c, "sxgm", sxgDumpMessage) },
 	func(c *core.Ctx) *inst { return sxgInst(c, "sxgs", sxgAddSignature) },
+	func(c *core.Ctx) *inst {
+		if c.Chance("sxgz.pick", 1, 4) { // (costs up to one real second: kept rare)
+			return sxgDatelessInst(c, "sxgz")
+		}
+		return sxgInst(c, "sxgs", sxgAddSignature)
+	},
 	func(c *core.Ctx) *inst { return signedSubsetInst(c, "subset") },
 	func(c *core.Ctx) *inst { return certChainInst(c, "chain") },
 	func(c *core.Ctx) *inst { return ibInst(c, "ibc", ibCborBytes) },
 	func(c *core.Ctx) *inst { return ibInst(c, "ibd", ibDataToBeSigned) },
 	func(c *core.Ctx) *inst { return ibInst(c, "ibi", ibBundleID) },
+	func(c *core.Ctx) *inst { return ibForkInst(c, "ibf") },
 	func(c *core.Ctx) *inst { return shInst(c, "sh") },
 	func(c *core.Ctx) *inst { return miceInst(c, "mice") },
 	func(c *core.Ctx) *inst { return miceDigestInst(c, "miced") },
